@@ -21,6 +21,7 @@ pub enum GOp {
     Spawn(u8),
     MarkerOff(u8),
     MarkerOn(u8),
+    Remark(u8),
 }
 
 #[derive(Clone, Debug, Serialize, Deserialize)]
@@ -133,10 +134,11 @@ pub fn run(c: &Case) -> Outcome {
                 GOp::Spawn(a) => Step::Spawn { slot: a as usize % n, marked: true, comps: vec![K::A, K::C, K::S] },
                 GOp::MarkerOff(a) => Step::Marker { slot: a as usize % n, on: false },
                 GOp::MarkerOn(a) => Step::Marker { slot: a as usize % n, on: true },
+                GOp::Remark(a) => Step::Remark { slot: a as usize % n },
             };
             let before = sim.world_ops;
             sim.step(&st);
-            if sim.world_ops != before && !matches!(g, GOp::Spawn(_)) {
+            if (sim.world_ops != before && !matches!(g, GOp::Spawn(_))) || matches!(g, GOp::Remark(_)) {
                 edited = true;
             }
             // one tick between graph operations (re-parenting = detach, tick, attach; finding F17)
@@ -320,6 +322,7 @@ fn gop() -> impl Strategy<Value = GOp> {
         1 => (0u8..6).prop_map(GOp::Spawn),
         1 => (0u8..6).prop_map(GOp::MarkerOff),
         1 => (0u8..6).prop_map(GOp::MarkerOn),
+        2 => (0u8..6).prop_map(GOp::Remark),
     ]
 }
 
